@@ -2,7 +2,7 @@
    The grammar model (chumsky 0.9 combinators of parsers/rfc2822.rs) and Display are in
    Model/Mailbox.v; the header map in Model/Headers.v. *)
 From LV Require Import Base.Bytes Base.Utf8 Base.Res Model.Address Model.Mailbox Model.HeaderEnc Model.Headers
-  Proofs.MailboxProofs Proofs.MailboxListProofs Proofs.HeadersProofs.
+  Proofs.MailboxProofs Proofs.MailboxListProofs Proofs.MailboxNamedListProofs Proofs.HeadersProofs.
 
 (* ---- mailboxes: Display then FromStr ---- *)
 (* An address of the simple form  run(.run)* @ run(.run)*  (runs of atext characters) without a
@@ -41,6 +41,23 @@ Theorem C17_mailboxes_rt_bare : forall alnum idna ip_ok (L : list mailbox),
   exists L', mailboxes_from_str alnum idna ip_ok v = Ok L' /\ L' = L.
 Proof. exact list_roundtrip. Qed.
 
+(* Lists of mailboxes WITH display names: any number of mailboxes, each without a name, with a name of atom words
+   separated by SP/TAB runs, or with any other name free of NUL / LF / CR (written as a quoted string) - addresses
+   as above.  Mailboxes' Display followed by the list grammar + FromStr gives the same number of mailboxes with the
+   same addresses in the same order; each name is the one that was written with its inner SP/TAB runs reduced to
+   their first character (read_back: the mailbox k_rd k for the shape k of the original); and every mailbox read
+   back is again of one of these shapes. *)
+Theorem C17_mailboxes_rt_named : forall alnum idna ip_ok (L : list mailbox),
+  Forall (Pnamed alnum idna ip_ok) L ->
+  exists v, show_mailboxes L = Some v /\
+  exists L', mailboxes_from_str alnum idna ip_ok v = Ok L' /\ map mb_email L' = map mb_email L /\
+             Forall (Pnamed alnum idna ip_ok) L' /\ Forall2 (read_back alnum idna ip_ok) L L'.
+Proof. exact list_roundtrip_named. Qed.
+(* what trim() returns is empty or begins and ends with a character that is not white space (so the class above
+   needs no side condition on names beyond their characters) *)
+Theorem C17_trim_ends : forall n : ustr,
+  trim_ws n = [] \/ (is_ws_cp (hd 0 (trim_ws n)) = false /\ is_ws_cp (lastc (trim_ws n)) = false).
+Proof. exact trim_ws_ends. Qed.
 (* FromStr = grammar, then Address::new on the two parts (any oracles) *)
 Theorem C17_from_str_of_raw : forall alnum idna ip_ok s n u d a,
   parse_mailbox_raw s = Some (n, (u, d)) -> addr_new alnum idna ip_ok u d = Ok a ->
@@ -83,3 +100,5 @@ Print Assumptions C17_from_str_of_raw.
 Print Assumptions C17_get_after_set.
 Print Assumptions C17_get_after_remove.
 Print Assumptions C17_names_unique.
+Print Assumptions C17_mailboxes_rt_named.
+Print Assumptions C17_trim_ends.
